@@ -88,6 +88,9 @@ def negate(c):
         return FALSE
     if c == FALSE:
         return TRUE
+    fr = c.as_fraction() if isinstance(c, T.Poly) else None
+    if fr is not None:  # truthiness of a numeric constant
+        return FALSE if fr != 0 else TRUE
     return T.app("not", c)
 
 
